@@ -389,3 +389,67 @@ Definition route_c05 (v : val) : val := route_check 5 v.
 Definition route_c06 (v : val) : val := route_check 6 v.
 (* ENGINE route_c40 Session.DeliverEngine.route_c40 *)
 Definition route_c40 (v : val) : val := route_check 40 v.
+
+(* ---------- C04 on copies sent from a STORED message (held back by Receive Maximum, kept for an offline
+   session, resent with DUP on resume) ----------
+   The stream "c04f" of eng_route.go adds the operation (9 c) = "client c acknowledges its oldest
+   unacknowledged delivery" (no effect on the routing state) and withholds acknowledgements, so copies
+   arrive in later steps.  Flow control and resending themselves are C09 / C11; here EVERY PUBLISH copy a
+   client receives, in whatever step, is judged by the C04 specification of the publish operation with
+   that payload (payloads are unique within a history), evaluated in the state in which it was published,
+   and compared with the delivery the model computes for that publish. *)
+Definition is_ack_op (v : val) : bool := match v with VL [VN 9; VB _] => true | _ => false end.
+Definition as_ops_skipping_acks (l : list val) : option (list op) :=
+  map_opt as_op (filter (fun v => negb (is_ack_op v)) l).
+
+(* the publish with payload p: (state before it, accepted message) *)
+Fixpoint find_publish (s : state) (ops : list op) (p : bytes) : option (state * msg) :=
+  match ops with
+  | [] => None
+  | o :: r =>
+      match pub_of o with
+      | Some m => if beq_bytes (m_payload m) p then Some (s, m) else find_publish (fst (step [] [] s o)) r p
+      | None => find_publish (fst (step [] [] s o)) r p
+      end
+  end.
+
+Definition online (cl : client) : client :=
+  mkCl true (cl_ver cl) (cl_rpi0 cl) (cl_persist cl) (cl_subs cl) (cl_pending cl).
+
+(* (specification satisfied, equals the model's delivery) for one received copy *)
+Definition copy_check (s0 : state) (ops : list op) (c : cid) (d : delivery) : bool * bool :=
+  match find_publish s0 ops (d_payload d) with
+  | Some (s, m) =>
+      match get_client s c with
+      | Some cl =>
+          let l := ent_subs c cl (m_topic m) [] in
+          (negb (nilb l) && c04_delivery_ok s m cl l d,
+           match deliver_to s [] [] m c (online cl) with PSend d' => beq_delivery d' d | _ => false end)
+      | None => (false, false)
+      end
+  | None => (false, false)
+  end.
+
+Definition stored_check (v : val) : val :=
+  match v with
+  | VL [cfg; VL prefix; opv; obv] =>
+      match as_cfg cfg, as_ops_skipping_acks (prefix ++ [opv]), as_obs obv with
+      | Some s0, Some ops, Some ob =>
+          let tg := if is_ack_op opv then tag "ack" else match as_op opv with Some o => op_tag o | None => tag "?" end in
+          if ob_hung ob then verdict 1 (tag "hung") true []
+          else
+            let before := match as_ops_skipping_acks prefix with Some l => l | None => [] end in
+            let res := flat_map (fun e => map (copy_check s0 ops (fst e)) (snd e)) (ob_recv ob) in
+            (* non-trivial: some copy of a message published in an EARLIER step, i.e. sent from a stored copy *)
+            let nt := existsb (fun e => existsb (fun d => match find_publish s0 before (d_payload d) with
+                                                         | Some _ => true | None => false end) (snd e)) (ob_recv ob) in
+            if negb (forallb fst res) then verdict 1 tg nt []
+            else if negb (forallb snd res) then verdict 2 tg nt []
+            else verdict 0 tg nt []
+      | _, _, _ => bad_case
+      end
+  | _ => bad_case
+  end.
+
+(* ENGINE route_c04f Session.DeliverEngine.route_c04f *)
+Definition route_c04f (v : val) : val := stored_check v.
